@@ -74,6 +74,15 @@ def checkFix (case impl : List String) : List Fail := Id.run do
         if t = .slit ∧ i = 0 ∧ c.num 0 * c.num 0 + 44 < 2 ^ 32 then
           fails := fails ++ [⟨"prop", "C12", "shape-refused", s!"slit {c.num 0}"⟩]
         break
+      -- `rawdiff:<image>:<as_bytes>`: the table's raw in-memory form differs from its serialisation (C14)
+      let (ob, rawDiff) := if ob.startsWith "rawdiff:" then
+          match (ob.drop 8).toString.splitOn ":" with
+          | [im, rw] => (im, some rw)
+          | _ => (ob, none)
+        else (ob, none)
+      match rawDiff with
+      | some rw => fails := fails ++ [⟨"prop", "C14", "raw-form-differs", s!"{tname} obs#{i}: as_bytes {rw} serialised {ob}"⟩]
+      | none => pure ()
       let some img := hexToBytes ob | return bad "image hex"
       match st with
       | none =>
@@ -158,6 +167,13 @@ def checkFix (case impl : List String) : List Fail := Id.run do
 def checkMisc (case impl : List String) : List Fail :=
   match case, impl with
   | ["gaddr", sp, ts, a], [hx] =>
+    if hx = "panic" then
+      (match nat? ts with
+       | some t => if genericAddressRefuses t then [] else [⟨"corr", "C04", "unexpected-panic", s!"gaddr {sp} <{t}-byte T>: impl panics, model emits"⟩]
+       | none => [⟨"corr", "C04", "parse", "gaddr"⟩])
+    else if (nat? ts).any genericAddressRefuses then
+      [⟨"prop", "C04", "unencodable-accepted", s!"GenericAddress::{sp} for a {ts}-byte register type: there is no Access Size code for it, yet a structure was returned ({hx})"⟩]
+    else
     match nat? ts, nat? a, hexToBytes hx with
     | some ts, some a, some bs =>
       let io := sp = "io"
